@@ -33,9 +33,9 @@
 #include <sys/syscall.h>
 
 enum { E_iEnter, E_iChkBegin, E_iChkSync, E_iChkEnd1, E_iChkEnd0, E_iSpin, E_iLock, E_iStepBegin,
-       E_iStepEnd, E_iUnlock, E_iEpiSync, E_iLeave, E_sLock, E_sSerBegin, E_sSerEnd, E_sUnlock, E_xStart, E_xStop, E_N };
+       E_iStepEnd, E_iUnlock, E_iEpiSync, E_iLeave, E_sLock, E_sSerBegin, E_sSerEnd, E_sUnlock, E_xStart, E_xStop, E_sSent, E_N };
 static const char* NAMES[E_N] = {"iEnter", "iChkBegin", "iChkSync", "iChkEnd1", "iChkEnd0", "iSpin", "iLock",
-    "iStepBegin", "iStepEnd", "iUnlock", "iEpiSync", "iLeave", "sLock", "sSerBegin", "sSerEnd", "sUnlock", "xStart", "xStop"};
+    "iStepBegin", "iStepEnd", "iUnlock", "iEpiSync", "iLeave", "sLock", "sSerBegin", "sSerEnd", "sUnlock", "xStart", "xStop", "sSent"};
 
 struct rec { unsigned char code; signed char nc; };
 
@@ -47,6 +47,9 @@ static void (*real_synchronize)(void*);
 static void (*real_step)(void*);
 static void (*real_save)(void*, char**, size_t*);
 static void* lib_handle;
+static const char** g_hdr;              /* &reb_server_header, &reb_server_header_png (the pointers live in the library) */
+static const char** g_hdr_png;
+static size_t (*real_fwrite)(const void*, size_t, size_t, FILE*);
 
 static char* volatile* volatile g_sdp;  /* &r->server_data */
 static long g_off_mutex, g_off_nc;
@@ -94,6 +97,8 @@ static void resolve_lib(void) {
     if (!real_check_exit || !real_synchronize || !real_step || !real_save) {
         fprintf(stderr, "c19_preload: symbol missing in %s\n", p); abort();
     }
+    g_hdr = dlsym(h, "reb_server_header");
+    g_hdr_png = dlsym(h, "reb_server_header_png");
     lib_handle = h;
 }
 
@@ -166,6 +171,17 @@ int usleep(useconds_t us) {
         delay();
     }
     return real_usleep(us);
+}
+
+/* every response of the server starts with fwrite(reb_server_header, …): logged as sSent (the reply leaves the server) */
+size_t fwrite(const void* ptr, size_t size, size_t n, FILE* f) {
+    if (!real_fwrite) real_fwrite = dlsym(RTLD_NEXT, "fwrite");
+    if (g_active && lib_handle && ptr && ((g_hdr && ptr == (const void*)*g_hdr) || (g_hdr_png && ptr == (const void*)*g_hdr_png))
+        && mytid() != g_itid) {
+        append(E_sSent, -1);
+        delay();
+    }
+    return real_fwrite(ptr, size, n, f);
 }
 
 /* fclose(stream) already closes the descriptor; a following close(fd) of the same number by the same thread closes
